@@ -23,6 +23,7 @@ def gen_case(rs, tier, prop="C06"):
     krng = W.stream(rs, "knobs")
     cfg = gen.swarm(krng, tier)
     cfg["n_constraints"] = min(cfg["n_constraints"], 2)
+    cfg["combinators"] = krng.random() < 0.3
     ast = gen.gen_design(rng, cfg, tier)
     if ast is None:
         return None
